@@ -94,7 +94,9 @@ func (r roots) lookup(t *iTree, method, hostPort, path string, c *cTx, lazy bool
 	}
 
 	host := netutil.StripHostPort(hostPort)
-	if host != "" {
+	// A hostname never contains a '/': with such a host, the walk would follow the '/' edge of the
+	// method root and match the host against path-only routes.
+	if host != "" && strings.IndexByte(host, '/') < 0 {
 		// Try first by domain
 		n, tsr = lookupByDomain(t, r[index], host, path, c, lazy)
 		if n != nil {
